@@ -77,7 +77,8 @@ def toTCmd (c : CmdS) : TCmd :=
 def toTTree (cmds : Array CmdS) : TTree := cmds.map toTCmd
 
 def toPFlagG (f : FlagS) : Spec.PflagG.PFlagG :=
-  { toPFlag f with delim := (f.delim.toList.head?).getD '=', nargs := f.nargs }
+  { toPFlag f with short := (if f.short.length == 1 then f.short.toList.head? else none),
+                   delim := (f.delim.toList.head?).getD '=', nargs := f.nargs, shortW := f.short.toList, mode := f.mode }
 
 def toTCmdG (c : CmdS) : TCmdG :=
   let par : Option Nat := if c.parent < 0 then none else some (Int.toNat c.parent)
@@ -123,8 +124,8 @@ def runParseOp (inp out : Json) : Json :=
   let typedRun := jget out "typedRun"
   let typedOk := jstr (jget typedRun "err") == ""
   let hiddenEnv := jbool inp "hiddenEnv"
-  -- non-POSIX flag sets (a shorthand that is a word, ShorthandOnly / NameAsShorthand flags) have no model: only the
-  -- oracles on the real code apply
+  -- non-POSIX flag sets (a shorthand that is a word, ShorthandOnly / NameAsShorthand flags): the general models
+  -- apply; the offer rules of C07 are compared on POSIX sets only
   let nonPosixTree := cmds.any (fun c => c.flags.any FlagS.nonPosix)
   -- C01: every offered candidate, once accepted, lands in the slot whose completion produced it
   let c01 : List AFail := runs.filterMap (fun r =>
@@ -267,7 +268,7 @@ def runParseOp (inp out : Json) : Json :=
     let descentRisk : Bool :=
       (words.dropLast.foldl (fun (acc : Bool × Bool) w =>
         if subNames.contains w then (acc.1, acc.2 || acc.1) else (true, acc.2)) (false, false)).2
-    if nonPosixTree || !(cur == "-" || cur == "--") || !typedOk || !jbool typedRun "ran" || descentRisk then none else
+    if !(cur == "-" || cur == "--") || !typedOk || !jbool typedRun "ran" || descentRisk then none else
     let rc := jnat typedRun "cmd"
     match cmds[rc]? with
     | none => none
@@ -286,11 +287,13 @@ def runParseOp (inp out : Json) : Json :=
       let states : List FlagState := vis.map (fun f =>
         { fdef := toFlagDef f, hidden := f.hidden, deprecated := f.deprecated, shortDeprecated := f.shortDeprecated,
           changed := changed f.name, repeatable := f.kind == "stringSlice" || f.kind == "count" || f.kind == "stringArray" || f.kind == "ipNetSlice" || f.kind == "boolSlice", groups := groupsOf f })
-      let expected := ((states.filter (offered hiddenEnv states)).map (fun st =>
-        let n := "--" ++ String.ofList st.fdef.name
-        match n.splitOn "." with
+      -- the name is offered as `--name` (mode Default), as `-name` (NameAsShorthand), or not at all (ShorthandOnly)
+      let expected := (((vis.zip states).filter (fun (_, st) => offered hiddenEnv states st)).filterMap (fun (f, st) =>
+        if f.mode == 1 then none else
+        let n := (if f.mode == 2 then "-" else "--") ++ String.ofList st.fdef.name
+        some (match n.splitOn "." with
         | a :: _ :: _ => a ++ "."
-        | _ => n)).eraseDups
+        | _ => n))).eraseDups.filter (fun n => n.startsWith cur)   -- MultiParts(".") keeps what extends the typed word
       let got := ((values.filter (fun v => jstr (jget v "tag") == "longhand flags")).map (fun v => jstr (jget v "value"))).filter (· != "--help")
       let srt (l : List String) := (sortBy (fun a b => Str.lt a.toList b.toList) l)
       -- only where flag names are being completed at all (not a value slot, not after `--`, ...)
@@ -343,14 +346,14 @@ def runParseOp (inp out : Json) : Json :=
       else if srt expected == srt got then none
       else some s!"{words}: series rule model offers {srt expected}, real offers {srt got}"
   -- C01: the slot the traverse model picks vs the markers the real code serves
-  let forkTree := cmds.any (fun c => c.whitelist || c.flags.any FlagS.fork)
+  let forkTree := cmds.any (fun c => c.whitelist || c.flags.any FlagS.fork || c.flags.any FlagS.nonPosix)
   -- the general model (fork features); on trees without them the POSIX model, which the theorems are about, must agree with it
   let slotG := traverseSlotG (toTTreeG cmds) (cmds.size + 2) 0 (words.dropLast.map String.toList) cur.toList
   let slotP := traverseSlot (toTTree cmds) (cmds.size + 2) 0 (words.dropLast.map String.toList) cur.toList
   let modelsDiff : Option String :=
-    if forkTree || nonPosixTree || slotG == slotP then none else some s!"{words}: general model {repr slotG}, POSIX model {repr slotP}"
+    if forkTree || slotG == slotP then none else some s!"{words}: general model {repr slotG}, POSIX model {repr slotP}"
   let slotDiff : Option String :=
-    if panic != "" || nonPosixTree then none else
+    if panic != "" then none else
     if modelsDiff.isSome then modelsDiff else
     let slot := slotG
     let realMarkers := (values.filterMap (fun v => (findMarker (jstr (jget v "value"))).map (fun (c, k) => s!"M{c}_{k}"))).eraseDups
@@ -384,7 +387,7 @@ def runParseOp (inp out : Json) : Json :=
   -- C07: sub-command names are offered exactly at the first positional word (as the program's parser counts) of a
   -- command that has an available sub-command: the names and aliases of its non-deprecated, visible children
   let subsDiff : Option String :=
-    if panic != "" || modelsDiff.isSome || nonPosixTree then none else
+    if panic != "" || modelsDiff.isSome then none else
     let offeredSubs := ((values.filter (fun v => (jstr (jget v "tag")).endsWith "commands")).map (fun v => jstr (jget v "value"))).filter
       (fun v => v != "help" && v != "_carapace" && v != "completion")
     let srt (l : List String) := sortBy (fun a b => Str.lt a.toList b.toList) l.eraseDups
@@ -424,7 +427,7 @@ def runLookupOp (inp out : Json) : Json :=
   let sorted := sortBy (fun (a b : FlagS) => Str.lt a.name.toList b.name.toList) flagsS
   let fs : FlagSet := sorted.map toFlagDef
   let fsG : FlagSetG := sorted.map (fun f => (toPFlagG f).toDefG)
-  let forky := flagsS.any FlagS.fork
+  let forky := flagsS.any FlagS.fork || flagsS.any FlagS.nonPosix
   -- the help flag is not defined yet when LookupArg runs
   let arg := jS inp "arg"
   let model := lookupArg fs arg
